@@ -521,7 +521,21 @@ def frap_cases():
                 out.append((T.enc_ty(t), t, doc, 'frap-family'))
     return out
 
-def judge_any_probe(ctx, cfg, n):
+AP_SPELL_TYS = ['d', 'od', 'ad', 't(db)', 'S(61:d)', 'f', 'af', 'wd', 'msd', 'i0', 'n3', 'v']
+AP_SPELL_DOCS = [b'1.50', b'0.10', b'2.5e3', b'1E2', b'-12', b'21.50', b'1e5', b'100.0', b'1E+2', b'7', b'18446744073709551615', b'0.1e1', b'-0.0', b'123456789012345678901234567890']
+
+def ap_spelling_cases():
+    """arbitrary_precision: typed float / integer targets meeting number literals in NON-canonical spellings (trailing zeros, exponents, capital E) held verbatim by
+    the Value: the typed requests of the Value deserializers must read them like the text route does (only deserialize_any may answer with the token map)"""
+    out = []
+    for tyt in AP_SPELL_TYS:
+        t = T.parse_ty_text(tyt)
+        for d in AP_SPELL_DOCS:
+            for doc in (d, b'[' + d + b']', b'[' + d + b',true]', b'{"k":' + d + b'}', b'{"a":' + d + b'}'):
+                out.append((T.enc_ty(t), t, doc, 'ap-spelling'))
+    return out
+
+def judge_any_probe(ctx, cfg, n, report_known=True, extra_docs=()):
     """deserialize_any dispatch (what a Content-buffering target — untagged / internally tagged enum, #[serde(flatten)] — records): the sequence of
     visit_* calls must be the same from_value(v), T::deserialize(&v) and from_str(&to_string(&v)).  Evaluated directly on the implementation."""
     import gen
@@ -531,6 +545,7 @@ def judge_any_probe(ctx, cfg, n):
             b'18446744073709551615', b'-9223372036854775808', b'{"":null,"1":2}', b'-0.0']
     for _ in range(n):
         docs.append(gen.rand_top(rng, depth=rng.choice([1, 2, 3]), floats=False).strip())
+    docs += list(extra_docs)
     lines = ['fvp %s %s' % (L, hx(d)) for d in docs]
     outs = ctx.impl(cfg, lines, 'sjh_fv')
     v = []
@@ -542,8 +557,28 @@ def judge_any_probe(ctx, cfg, n):
             # without float_roundtrip a float's text does not always read back bit for bit: outside the claim (C16: "comparisons involving f64
             # assume float_roundtrip or short float literals"); the KIND of call (visit_f64) is still compared
             parts = [re.sub(r'F\(\d+\)', 'F', x) for x in parts]
+        cls = None
+        if 'a' in L and len(parts) == 3 and parts[0] == parts[1] and parts[0] != parts[2]:
+            # arbitrary_precision: the text route hands every number that is not an integer of at most 64 bits to the visitor as the private-token map, the
+            # Value route (Number::deserialize_any) as visit_f64 / visit_u128 / visit_i128 (known finding F25, C16); in-range integers are visit_u64 / visit_i64
+            # on BOTH routes and stay compared
+            def tok(m):
+                lit = bytes(int(x) for x in m.group(1).split(',')).decode('latin-1')
+                small = re.fullmatch(r'-?\d+', lit) and -2**63 <= int(lit) <= 2**64 - 1 and lit != '-0'
+                return m.group(0) if small else 'NUM'
+            tside = re.sub(r'Map\(\[\(Str\(\[%s\]\),Str\(\[([0-9,]*)\]\)\)\]\)' % ','.join(str(c) for c in b'$serde_json::private::Number'), tok, parts[2])
+            def big(m):
+                return m.group(0) if -2**63 <= int(m.group(2)) <= 2**64 - 1 else 'NUM'
+            vside = re.sub(r'F(\(\d+\))?', 'NUM', parts[0])
+            vside = re.sub(r'\b([IU])\((-?\d+)\)', big, vside)
+            if vside == tside or vside.replace('I(0)', 'NUM') == tside:
+                cls = 'ap-number-transported-as-token-map'
+        if cls and not report_known:
+            continue
         if o == 'PANIC' or len(parts) != 3 or not (parts[0] == parts[1] == parts[2]):
             v.append({'what': 'deserialize_any-dispatch-differs', 'cfg': cfg, 'input': hx(d), 'expected': 'the same visit_* calls from_value | &Value | from_str(to_string)', 'actual': o[:400], 'shrinkable': False})
+            if cls:
+                v[-1]['class'] = cls
         elif not ctx.quiet:
             ctx.distinct_nontrivial += 1
     ctx.count('deserialize_any-probes', len(lines))
@@ -557,12 +592,21 @@ def run_c16(ctx):
                 'fixed types of the typed development; per case: from_value (owned), by reference, and from_str on to_string(v) must all succeed with equal data or all fail '
                 '(property evaluated directly), and owned/by-reference outcomes must equal the extracted Coq model (Model/ValueDe.v); non-trivial = three-way successes')
     quick = ctx.tier == 'quick'
+    for cfg in [c for c in list(ctx.cfgs) + list(getattr(ctx, 'side_cfgs', [])) if 'a' in ctx.letters(c)]:
+        ctx.violations += judge_cases(ctx, cfg, ap_spelling_cases())
+        if cfg not in ctx.cfgs:
+            ctx.violations += judge_any_probe(ctx, cfg, 500)
     for cfg in ctx.cfgs:
         fx = fixed_cases()
         ctx.violations += judge_cases(ctx, cfg, fx)
         ctx.violations += judge_any_probe(ctx, cfg, 3000 if quick else 30000)
         from checks import ntarget
         ctx.violations += ntarget.judge_number_target(ctx, cfg, 1500 if quick else 8000)
+        # entry points that must be the same thing on the Value routes too (Map<String,Value> as a target by value / by reference, IntoDeserializer, FromIterator)
+        from checks import parser
+        import gen as _g
+        edocs = [b'null', b'[]', b'{}', b'0', b'"s"', b'true', b'[null]', b'{"a":null}', b'{"a":{"b":[]}}'] + [_g.rand_top(ctx.rng, depth=ctx.rng.choice([1, 2, 3]), floats=False).strip() for _ in range(800 if quick else 8000)]
+        ctx.violations += parser.judge_entry_points(ctx, cfg, edocs)
         n = 8000 if quick else 60000
         done = 0
         while done < n:
@@ -591,4 +635,4 @@ FV_TB = ['the universal DeserializeSeed of harness/src/bin/sjh_fv.rs (copied fro
          'assumed std behaviour: str::parse::<iN/uN/f32/f64>; ryu and f64 Display texts are input data of the model (arbitrary_precision, Value target)',
          'the direct three-way comparison does not depend on the model']
 
-register('C16', cfgs={'quick': ['fr', 'po'], 'thorough': ['fr', 'po', 'ap']}, run=run_c16, judge=judge_c16, extended=run_c16, trusted_base=FV_TB)
+register('C16', cfgs={'quick': ['fr', 'po'], 'thorough': ['fr', 'po', 'ap']}, side_cfgs=['ap'], run=run_c16, judge=judge_c16, extended=run_c16, trusted_base=FV_TB)
